@@ -7,6 +7,7 @@ From KV Require Import ReadOnly.
 From KV Require Import ApiView.
 From KV Require Import LockDiscipline.
 From KV.gen Require Locks.
+From KV Require Import SSTable Xxhash Block SSTFile.
 Extraction Language OCaml.
 (* Coq's String module (identifiers of the C07 lock table) must not shadow OCaml's: it is emitted as String0 *)
 Extraction Blacklist String.
@@ -24,4 +25,11 @@ Separate Extraction
   ReadOnly.start ReadOnly.step_client ReadOnly.step_repl ReadOnly.node_get ReadOnly.tx_get
   ReadOnly.node_scan ReadOnly.node_info ReadOnly.rw_open ReadOnly.any_open ApiView.api_view
   LockDiscipline.protectedb LockDiscipline.flagged_rows LockDiscipline.acyclicb Locks.gen_accesses Locks.gen_order
+  SSTable.write SSTable.cut SSTable.ti_new SSTable.ti_seek_first SSTable.ti_seek_last SSTable.ti_seek SSTable.ti_next
+  SSTable.ti_valid SSTable.ti_cur SSTable.t_get SSTable.wf_sentry SSTable.ascending
+  Xxhash.xxh64 Block.encode_block Block.new_reader Block.it_new Block.it_seek_first Block.it_next
+  Block.it_seek Block.it_seek_prev Block.it_seek_last Block.it_valid Block.it_entry Block.block_scan
+  SSTFile.file_parts SSTFile.parts_bytes SSTFile.enc_footer SSTFile.read_file SSTFile.upd
+  SSTFile.bl_of_block SSTFile.bl_contains SSTFile.bl_bytes SSTFile.parse_locator SSTFile.filters_bytes
+  Block.slice
 .
